@@ -205,3 +205,84 @@ def cleanup_candidates(fn):
             if any("_is_done_flow" in _src(c) for c in conj):
                 out.append((n, conj, _src(n.targets[0])))
     return out
+
+
+def refusal_defined(ctx, rule, categories):
+    """A Colang 1.0 rail refuses with `bot <intent>` + `stop`.  If no `define bot <intent>` exists, generate_bot_message falls back to GENERATING the text with the main LLM
+    (in passthrough mode with the raw user message as the prompt): the turn in which the rail rejected makes an LLM call and returns its completion.  So every refusal intent
+    used by a shipped blocking rail must be defined in the shipped library (or in llm_flows.co)."""
+    from .. import colang1
+    tree = ctx.tree
+    defined = set()
+    for rel in list(rails.library_co_files(tree)) + [rails.LLM_FLOWS]:
+        text = tree.text(rel)
+        if rails.dialect_of(text) != "1.0":
+            continue
+        _, msgs = colang1.parse(text, rel)
+        defined |= {name for (k, name) in msgs if k == "bot"}
+    n = 0
+    for f in rails.library_flows(tree):
+        if f.dialect != "1.0" or f.kind == "unknown-define" or classify_rail(f) not in categories:
+            continue
+        if not any(s.kind in ("stop", "abort") for s in f.walk()):
+            continue
+        w = Walker()
+        for pth in w.run(f.body, {}):
+            if pth.outcome not in ("stop", "abort"):
+                continue
+            depth = 0
+            for s in pth.steps:
+                if s.kind == "branch":
+                    depth += 1
+                if s.kind == "bot" and depth > 0:
+                    name = (s.name or s.text[3:]).strip()
+                    if name.startswith("$") or name == "...":
+                        continue
+                    n += 1
+                    ok = name in defined
+                    ctx.check(rule, f.file, f.name, s.text, ok,
+                              "refusal `%s` has a predefined message" % s.text if ok else
+                              "the rail refuses with `%s`, but no `define bot %s` exists in the shipped library: generate_bot_message falls back to the main LLM (in passthrough mode "
+                              "with the rejected user message as the prompt) and the completion is returned instead of a refusal" % (s.text, name), line=s.line)
+    return n
+
+
+def context_globals(ctx, rule, categories):
+    """Colang 2.x: a variable is shared with the rest of the configuration only after the flow EXECUTED `global $x`.  A shipped rail that reads `$user_message`,
+    `$bot_message`, `$check_facts`, ... before such a statement reads an unset local: its action receives None / its enabling test is never true, and the rail never
+    checks anything.  Decided per flow in statement order: every `$x` read is a parameter, a return member, assigned or bound (`as $x`) earlier in the flow, or declared
+    global earlier on the way."""
+    from ..cobase import vars_in
+    n = 0
+    for f in rails.library_flows(ctx.tree):
+        if f.dialect != "2.x" or f.kind == "unknown-define" or classify_rail(f) not in categories:
+            continue
+        names = [x[0] if isinstance(x, tuple) else x for x in list(f.params) + list(f.returns)]
+        defined = {str(x).lstrip("$") for x in names} | {"system", "self"}
+        reported = set()
+        for s in f.walk():
+            txt = " ".join(x for x in [s.expr or "", s.args or "", s.cond or ""] if x)
+            if s.branches:
+                txt += " " + " ".join(c for c, _ in s.branches if isinstance(c, str))
+            if s.kind in ("log", "print"):
+                txt = ""
+            for m in re.finditer(r"\bas\s+\$(\w+)", s.text or ""):
+                defined.add(m.group(1))
+            for r in sorted(vars_in(txt)):
+                n += 1
+                if r in defined or r in reported:
+                    continue
+                reported.add(r)
+                ctx.check(rule, f.file, f.name, s.text[:90], False,
+                          "`$%s` is read here before the flow declared it `global` (or bound it): in Colang 2.x that is an unset local, so the rail's action receives None / its "
+                          "test is never true and the configured rail never checks the message" % r, line=s.line)
+            if s.kind == "global" and s.target:
+                defined.add(s.target)
+            if s.target:
+                defined.add(s.target)
+            if s.ref:
+                defined.add(s.ref.lstrip("$"))
+        ctx.check(rule, f.file, f.name, "reads of context variables", not reported,
+                  "every variable the rail reads is a parameter, bound earlier, or declared global before the read" if not reported else
+                  "reads of undeclared variables: %s" % sorted(reported), line=f.line)
+    return n
